@@ -154,6 +154,17 @@ def m_table(ctx, case):
         keys = list(d.acs.keys())
         if not ok_ or r[0] != "ok" or len(keys) != 1 or d.acs[keys[0]].get("t") != 282.0:
             ctx.violation("aircraft-heard-through-identical-repeats-lost", frames=[a, b], keys=keys, t=(d.acs[keys[0]].get("t") if keys else None))
+        # ... then nothing is heard for two minutes (an idle call and a call with a stranger's Comm-B reply only): the aircraft
+        # is gone; its next squitter - the first message processed after that - files it again and its reply attaches
+        r1 = call(d.process_raw, [], [], [], [], 400.0)
+        gone = len(d.acs) == 0
+        r2 = call(d.process_raw, [401.0], [a], [], [], 401.5)
+        back = list(d.acs.keys())
+        r3 = call(d.process_raw, [], [], [402.0], [b], 402.5)
+        ctx.ev(3)
+        if r1[0] != "ok" or r2[0] != "ok" or r3[0] != "ok" or not gone or len(back) != 1 or list(d.acs.keys()) != back or d.acs[back[0]].get("t") != 402.0:
+            ctx.violation("aircraft-not-filed-again-after-eviction", frames=[a, b], gone_after_idle_call=gone, keys_after_next_squitter=back,
+                          keys_after_reply=list(d.acs.keys()), t=(d.acs[back[0]].get("t") if back and back[0] in d.acs else None))
         ctx.hit("table_identical_repeats_for_minutes")
     if case.get("twin"):
         # two transponders answering with bit-identical content (same header, same MB) in one batch: the address lives in
